@@ -430,10 +430,11 @@ class Zeroconf(QuietLogger):
         for i in range(_REGISTER_BROADCASTS):
             if i != 0:
                 await asyncio.sleep(millis_to_seconds(interval))
-                if ttl is None and self.registry.async_get_info_name(info.key) is not info:
-                    # The service was unregistered (or replaced) while we were
-                    # waiting: announcing it again would undo its goodbyes
-                    return
+            if ttl is None and self.registry.async_get_info_name(info.key) is not info:
+                # The service was unregistered (or replaced) while we were
+                # waiting - also for this task's first turn: announcing it
+                # would undo its goodbyes or bring back replaced records
+                return
             self.async_send(self.generate_service_broadcast(info, ttl, broadcast_addresses))
 
     def generate_service_broadcast(
